@@ -18,7 +18,7 @@ func init() {
 	core.Register(&core.Prop{
 		ID:    "C06",
 		Level: "exploration",
-		Rule: "EXHAUSTIVE symbol sequences over the 22-symbol alphabet {8 block opens, else/elsif/when, 8 end tags, a plain tag, an object, text} up to length 4 (quick) / 5 (thorough), and over the reduced 9-symbol alphabet {if, for, case, else, when, endif, endfor, endcase, text} up to length 6 / 7; PRNG well-nested templates of depth up to 40 and all their one-edit neighbours (delete / duplicate / swap / replace one symbol). Every symbol is spelled with valid arguments so that only nesting can cause rejection. Oracle: acceptance iff the reference nesting automaton accepts; rejected templates render nothing; for accepted ones the tree from Template.GetRoot() is isomorphic to the reference tree and a render with unique text markers shows each marker under exactly its enclosing blocks/clauses (two runs: conditions true / one-element loops, conditions false / empty loops). Non-trivial = the sequence contains at least one block, clause or end tag; distinct = distinct sequences.",
+		Rule: "EXHAUSTIVE symbol sequences over the 22-symbol alphabet {8 block opens, else/elsif/when, 8 end tags, a plain tag, an object, text} up to length 4 (quick) / 5 (thorough), and over the reduced 9-symbol alphabet {if, for, case, else, when, endif, endfor, endcase, text} up to length 6 / 7; PRNG well-nested templates of depth up to 40 and all their one-edit neighbours (delete / duplicate / swap / replace one symbol). Every symbol is spelled with valid arguments so that only nesting can cause rejection. Every sequence containing a capture symbol is checked a second time (acceptance only) with the capture block spelled as an application-defined block (Engine.RegisterBlock) and the plain tag as an application-defined tag. Oracle: acceptance iff the reference nesting automaton accepts; rejected templates render nothing; for accepted ones the tree from Template.GetRoot() is isomorphic to the reference tree and a render with unique text markers shows each marker under exactly its enclosing blocks/clauses (two runs: conditions true / one-element loops, conditions false / empty loops). Non-trivial = the sequence contains at least one block, clause or end tag; distinct = distinct sequences.",
 		Exhaustive: func(string) bool { return true },
 		Assumptions: []string{
 			"comment and raw bodies are opaque up to their first end tag; an unclosed comment or raw is rejected like any other unclosed block",
@@ -63,6 +63,45 @@ func c06Source(seq []ref.Sym) string {
 		sb.WriteString(c06Spell(s, i))
 	}
 	return sb.String()
+}
+
+// c06CustomCheck: the same sequence with the capture block spelled as an application block (RegisterBlock) and the
+// plain tag as an application tag (RegisterTag): block structure is the same whoever defined the block.
+func c06CustomCheck(c *core.Ctx, e *liquid.Engine, seq []ref.Sym) {
+	uses := false
+	var sb strings.Builder
+	for i, s := range seq {
+		switch s {
+		case ref.SCapture:
+			sb.WriteString("{% xwrap a{{ 1 }} %}")
+			uses = true
+		case ref.SEndCapture:
+			sb.WriteString("{% endxwrap %}")
+			uses = true
+		case ref.SPlain:
+			sb.WriteString("{% xecho a %}")
+		default:
+			sb.WriteString(c06Spell(s, i))
+		}
+	}
+	if !uses {
+		return
+	}
+	src := sb.String()
+	if !c.Begin("custom-block:" + src) {
+		return
+	}
+	_, accept := ref.Nest(seq)
+	_, pr := core.ParsePlain(e, src)
+	c.Eval(1)
+	c.Obs("custom_block_sequences", 1)
+	c.Distinct("custom", src)
+	if pr.Panic != "" || pr.Shape != "" {
+		c.Violate("parse-panic|custom-block|"+pr.Site, "parsing a block structure panicked", map[string]any{"source": src, "observed": pr.Brief()})
+	} else if accept != pr.OK() {
+		c.Violate(map[bool]string{true: "rejected-valid|custom-block", false: "accepted-invalid|custom-block"}[accept], "an application-defined block must nest and close like any other block",
+			map[string]any{"source": src, "reference_accepts": accept, "observed": pr.Brief()})
+	}
 }
 
 // shape renders a tree as a canonical string.
@@ -340,6 +379,8 @@ func c06Why(seq []ref.Sym) string {
 
 func runC06(c *core.Ctx) {
 	e := liquid.NewEngine()
+	ce := liquid.NewEngine()
+	RegisterCustom(ce)
 	// ---- exhaustive, full alphabet -------------------------------------------------
 	k := int(ref.NumSyms)
 	total := gen.CountStrings(k, c.Pick(4, 5))
@@ -353,6 +394,7 @@ func runC06(c *core.Ctx) {
 			seq[j] = ref.Sym(v)
 		}
 		c06Check(c, e, seq, "exhaustive")
+		c06CustomCheck(c, ce, seq)
 		if i%100003 == 7 {
 			c.Sample(map[string]any{"source": c06Source(seq), "reference_accepts": func() bool { _, ok := ref.Nest(seq); return ok }()})
 		}
@@ -425,6 +467,7 @@ func runC06(c *core.Ctx) {
 			seq = []ref.Sym{ref.SText}
 		}
 		c06Check(c, e, seq, "random-nested")
+		c06CustomCheck(c, ce, seq)
 		c.ObsMax("max:nesting_depth_generated", int64(maxDepth))
 		// one-edit neighbours
 		for j := 0; j < len(seq); j++ {
@@ -444,6 +487,9 @@ func runC06(c *core.Ctx) {
 					nb[j] = ref.Sym(r.Intn(int(ref.SPlain)))
 				}
 				c06Check(c, e, nb, "one-edit")
+				if ed == 0 || ed == 2 {
+					c06CustomCheck(c, ce, nb)
+				}
 				c.Obs("one_edit_neighbours", 1)
 			}
 		}
